@@ -2,8 +2,9 @@ package main
 
 import (
 	"fmt"
-	"go/token"
 	"go/types"
+	"math/big"
+	"sort"
 	"strings"
 
 	"golang.org/x/tools/go/ssa"
@@ -12,204 +13,614 @@ import (
 func init() {
 	register(&propDef{
 		id: "C52", run: runC52, minOblig: 18,
-		explanation: "Decides the encoding clause of C52 on bn256 G1/G2 Unmarshal: every coordinate filled from input bytes by SetBytes is compared with the field modulus p and the accepting return (…, true) is reachable only over an edge where Cmp(coord, p) < 0; a point that is not all-zero reaches the accepting return only over the true edge of IsOnCurve; the all-zero (infinity) branch requires every coordinate's Sign()==0; the length test dominates all slicing; Marshal writes each coordinate into its own fixed 32-byte window in the order Unmarshal reads them. NOT decided: group laws, bilinearity, correctness of IsOnCurve / field arithmetic.",
-		assumptions: []string{"math/big Cmp/Sign/SetBytes contracts", "access-path equality identifies the same big.Int (no aliasing stores between SetBytes and Cmp)"},
+		explanation: "Decides the encoding clause of C52 on bn256 G1/G2 Marshal/Unmarshal by symbolic interpretation (c52_sym.go: every bn256 callee interpreted in place, every undecided branch explored on both sides, big.Int values tracked by object identity and content term), so the verdict does not depend on how the code is factored. Unmarshal, at every accepting return (…, true): len(m) is exactly 32·n and no slice/index of m before that is possibly out of range; the first result is the receiver; each of the n coordinates of the receiver was decoded by SetBytes from its own window m[32i:32i+32] (the window Marshal writes that same coordinate to) and, unless all coordinates are zero, still holds that value; each decoded coordinate is known to be zero or to satisfy Cmp(coord, p) < 0 (p identified by its VALUE in the package initialiser and never written elsewhere); each coordinate is known to be zero or the curve predicate IsOnCurve returned true on a point holding exactly the decoded coordinates; an all-zero (infinity) accepting path and an on-curve accepting path both exist. Marshal, at every return: the result is a fresh 32·n-byte buffer, either untouched (all-zero encoding) or with exactly one big-endian, right-aligned write per 32-byte window (copy of Bytes() to buf[K-len:], or FillBytes(buf[a:b])) whose source is a distinct receiver coordinate reduced with Mod(·, p); G1/G2 Marshal and Unmarshal agree on which coordinate lives in which window (C52.layout). The curve predicate itself, interpreted on an arbitrary point, writes only to objects it allocates (C52.oncurve-pure). NOT decided: group laws, bilinearity, correctness of IsOnCurve / field arithmetic, the representation of infinity left in the receiver.",
+		assumptions: []string{"math/big Cmp/Sign/BitLen/SetBytes/Set/Mod/Bytes/FillBytes contracts", "the method named IsOnCurve of the point type is the curve-membership predicate and is a function of the point's coordinates", "distinct objects reached from the receiver do not alias", "Marshal result forms understood: copy of Bytes() to buf[K-len:], FillBytes(buf[a:b]), append of whole fixed-length buffers; any other way of filling the result (e.g. append of variable-length zero padding, bytes.Join) is reported as a violation, never accepted unseen"},
 	})
 }
 
-func runC52(c *Ctx) {
-	for _, spec := range []struct {
-		fn     string
-		ncoord int
-	}{{"(*G1).Unmarshal", 2}, {"(*G2).Unmarshal", 4}} {
-		fn := c.fn("bn256", spec.fn)
-		if fn == nil {
-			continue
-		}
-		accept := retTargets(fn, func(r *ssa.Return) bool {
-			if len(r.Results) != 2 {
-				return false
-			}
-			b, ok := constBool(r.Results[1])
-			return !ok || b // constant true, or not a constant (conservative)
-		})
-		if len(accept) == 0 {
-			c.fail("C52.accept-return", spec.fn, fn, "no accepting return found")
-			continue
-		}
-		// coordinates: SetBytes(recv=path, slice-of-param m)
-		type coord struct {
-			path string
-			call *ssa.Call
-			lo   int64
-			hi   int64
-		}
-		var coords []coord
-		for _, ci := range callsNamed(fn, "(*math/big.Int).SetBytes") {
-			call := ci.(*ssa.Call)
-			arg := call.Call.Args[1]
-			if sliceBase(arg) != ssa.Value(fn.Params[1]) {
-				continue
-			}
-			cd := coord{path: accessPath(call.Call.Args[0]), call: call, lo: -1, hi: -1}
-			if sl, ok := arg.(*ssa.Slice); ok {
-				if sl.Low != nil {
-					cd.lo, _ = constInt(sl.Low)
-				} else {
-					cd.lo = 0
-				}
-				if sl.High != nil {
-					cd.hi, _ = constInt(sl.High)
-				}
-			}
-			coords = append(coords, cd)
-		}
-		c.check(len(coords) == spec.ncoord, "C52.coords", spec.fn, fn,
-			fmt.Sprintf("%d coordinates read from the input", len(coords)),
-			fmt.Sprintf("expected %d coordinates set from input bytes, found %d", spec.ncoord, len(coords)))
+const c52PDecimal = "65000549695646603732796438742359905742825358107623003571877145026864184071783"
 
-		// length test dominates slicing: len(m) == const and windows inside it
-		var total int64 = -1
-		for _, ci := range calls(fn, nameIs("builtin:len")) {
-			call, ok := ci.(*ssa.Call)
-			if !ok || call.Call.Args[0] != ssa.Value(fn.Params[1]) {
-				continue
-			}
-			// edges guaranteeing len == K for some K: look for comparison with constant
-			for _, r := range *call.Referrers() {
-				if bo, ok := r.(*ssa.BinOp); ok {
-					if k, ok := constInt(bo.Y); ok {
-						es := edgesImplying(call, []int64{k - 1, k, k + 1, 0}, func(d int64) bool { return d == k })
-						cut := edgeSet{}
-						cut.addAll(es)
-						if len(es) > 0 && anyReachable(fn, accept, cut) == nil {
-							total = k
-						}
-					}
-				}
-			}
-		}
-		c.check(total == int64(32*spec.ncoord), "C52.length-guard", spec.fn, fn,
-			fmt.Sprintf("accepting return only reachable with len(m) == %d", total),
-			fmt.Sprintf("no exact length test len(m) == %d guards the accepting return (found %d)", 32*spec.ncoord, total))
-
-		var isOn []edge
-		for _, ci := range calls(fn, func(n string) bool { return strings.HasSuffix(n, ").IsOnCurve") }) {
-			if call, ok := ci.(*ssa.Call); ok {
-				y, _ := successEdges(call, 0, isTrue)
-				isOn = append(isOn, y...)
-			}
-		}
-		c.check(len(isOn) > 0, "C52.oncurve-call", spec.fn, fn, "IsOnCurve result is branched on", "no branch on IsOnCurve found")
-
-		for i, cd := range coords {
-			name := fmt.Sprintf("%s coord#%d %s", spec.fn, i, cd.path)
-			// window
-			c.check(cd.lo == int64(32*i) && cd.hi == int64(32*(i+1)), "C52.window", name, cd.call,
-				fmt.Sprintf("reads m[%d:%d]", cd.lo, cd.hi),
-				fmt.Sprintf("coordinate %d reads m[%d:%d], expected m[%d:%d]", i, cd.lo, cd.hi, 32*i, 32*(i+1)))
-			// Cmp(path, p) < 0 on every path to accept
-			var lt []edge
-			for _, ci := range callsNamed(fn, "(*math/big.Int).Cmp") {
-				call := ci.(*ssa.Call)
-				if accessPath(call.Call.Args[0]) != cd.path || accessPath(call.Call.Args[1]) != "p" {
-					continue
-				}
-				if !precedes(cd.call, call) {
-					continue
-				}
-				lt = append(lt, edgesImplying(call, []int64{-1, 0, 1}, func(d int64) bool { return d < 0 })...)
-			}
-			cut := edgeSet{}
-			cut.addAll(lt)
-			if len(lt) == 0 {
-				c.fail("C52.canonical", name, cd.call, "coordinate is never compared with the modulus p after SetBytes; x+k·p encodings are accepted")
-			} else if r := anyReachable(fn, accept, cut); r != nil {
-				c.fail("C52.canonical", name, r, "an accepting return is reachable without passing Cmp("+cd.path+", p) < 0")
-			} else {
-				c.ok("C52.canonical", name, cd.call, fmt.Sprintf("accepting return unreachable once the %d edges with Cmp(%s,p)<0 are cut", len(lt), cd.path))
-			}
-			// infinity-or-on-curve
-			var zero []edge
-			for _, ci := range callsNamed(fn, "(*math/big.Int).Sign") {
-				call := ci.(*ssa.Call)
-				if accessPath(call.Call.Args[0]) == cd.path {
-					zero = append(zero, edgesImplying(call, []int64{-1, 0, 1}, func(d int64) bool { return d == 0 })...)
-				}
-			}
-			cut2 := edgeSet{}
-			cut2.addAll(isOn)
-			cut2.addAll(zero)
-			if r := anyReachable(fn, accept, cut2); r != nil {
-				c.fail("C52.oncurve", name, r, "an accepting return is reachable with "+cd.path+" possibly non-zero and without IsOnCurve() == true")
-			} else {
-				c.ok("C52.oncurve", name, cd.call, "every accepting path has "+cd.path+".Sign()==0 or IsOnCurve()==true")
-			}
-		}
+func c52IsCurvePred(f *ssa.Function) bool {
+	if f.Name() != "IsOnCurve" || f.Signature.Recv() == nil || f.Signature.Results().Len() != 1 {
+		return false
 	}
-	// Marshal: fixed windows, same coordinate order as Unmarshal
-	for _, spec := range []struct {
-		fn    string
-		paths []string
-	}{
-		{"(*G1).Marshal", []string{".p.x", ".p.y"}},
-		{"(*G2).Marshal", []string{".p.x.x", ".p.x.y", ".p.y.x", ".p.y.y"}},
-	} {
-		fn := c.fn("bn256", spec.fn)
-		if fn == nil {
-			continue
+	b, ok := f.Signature.Results().At(0).Type().Underlying().(*types.Basic)
+	return ok && b.Kind() == types.Bool
+}
+
+// c52Modulus identifies the package-level *big.Int that holds the field prime p
+// by its value in the package initialiser, and checks that nothing else writes it.
+func c52Modulus(c *Ctx) *ssa.Global {
+	sp := c.ssaPkg("bn256")
+	if sp == nil {
+		c.fail("anchor", "bn256", nil, "package not found")
+		return nil
+	}
+	pv, _ := new(big.Int).SetString(c52PDecimal, 10)
+	isP := func(s string) bool {
+		s = strings.TrimSpace(strings.ToLower(s))
+		s = strings.TrimPrefix(s, "0x")
+		if v, ok := new(big.Int).SetString(s, 10); ok && v.Cmp(pv) == 0 {
+			return true
 		}
-		want := int64(32 * len(spec.paths))
-		// allocation sizes of returned buffers
-		for _, r := range returnsOf(fn) {
-			sz := allocLen(r.Results[0])
-			c.check(sz == want, "C52.marshal-size", spec.fn+" return", r,
-				fmt.Sprintf("returns a %d-byte buffer", sz),
-				fmt.Sprintf("returns a buffer of %d bytes, Unmarshal requires exactly %d", sz, want))
+		if v, ok := new(big.Int).SetString(s, 16); ok && v.Cmp(pv) == 0 {
+			return true
 		}
-		got := map[int64]string{}
-		for _, ci := range calls(fn, nameIs("builtin:copy")) {
-			call := ci.(*ssa.Call)
-			dst, ok := call.Call.Args[0].(*ssa.Slice)
-			if !ok || dst.Low == nil {
-				c.fail("C52.marshal-window", spec.fn, call, "copy destination is not of the form ret[K-len(b):]")
-				continue
+		return false
+	}
+	var mentions func(v ssa.Value, d int) bool
+	mentions = func(v ssa.Value, d int) bool {
+		if s, ok := constString(v); ok {
+			return isP(s)
+		}
+		in, ok := v.(ssa.Instruction)
+		if !ok || d > 4 {
+			return false
+		}
+		for _, op := range in.Operands(nil) {
+			if *op != nil && mentions(*op, d+1) {
+				return true
 			}
-			sub, ok := dst.Low.(*ssa.BinOp)
-			if !ok || sub.Op != token.SUB {
-				c.fail("C52.marshal-window", spec.fn, call, "copy destination offset is not K-len(b)")
-				continue
-			}
-			k, _ := constInt(sub.X)
-			ln, ok := sub.Y.(*ssa.Call)
-			if !ok || calleeName(&ln.Call) != "builtin:len" || ln.Call.Args[0] != call.Call.Args[1] {
-				c.fail("C52.marshal-window", spec.fn, call, "offset does not subtract the length of the copied value (right-alignment broken)")
-				continue
-			}
-			// source: (…Mod(new, coord, p)).Bytes()
-			src := ""
-			if bc, ok := call.Call.Args[1].(*ssa.Call); ok && short(calleeName(&bc.Call)) == "(*math/big.Int).Bytes" {
-				if mc, ok := bc.Call.Args[0].(*ssa.Call); ok && short(calleeName(&mc.Call)) == "(*math/big.Int).Mod" {
-					if accessPath(mc.Call.Args[2]) == "p" {
-						src = accessPath(mc.Call.Args[1])
-						if i := strings.Index(src, "."); i >= 0 && len(fn.Params) > 0 && src[:i] == fn.Params[0].Name() {
-							src = src[i:] // receiver-relative
-						}
+		}
+		return false
+	}
+	var g *ssa.Global
+	initFn := sp.Func("init")
+	if initFn != nil {
+		allInstrs(initFn, func(in ssa.Instruction) {
+			if st, ok := in.(*ssa.Store); ok {
+				if gl, ok := st.Addr.(*ssa.Global); ok && c52IsBigPtr(gl.Type().(*types.Pointer).Elem()) && mentions(st.Val, 0) {
+					if g == nil {
+						g = gl
 					}
 				}
 			}
-			got[k] = src
-		}
-		for i, pth := range spec.paths {
-			k := int64(32 * (i + 1))
-			c.check(got[k] == pth, "C52.marshal-window", fmt.Sprintf("%s window ending %d", spec.fn, k), fn,
-				"holds receiver"+pth+" mod p, right-aligned",
-				fmt.Sprintf("window ending at %d holds %q, Unmarshal reads receiver%s there", k, got[k], pth))
+		})
+	}
+	if g == nil {
+		c.undecided("C52.modulus", "bn256 field prime", sp.Func("init"), "no package-level *big.Int initialised with the value of the field prime p was found")
+		return nil
+	}
+	var bad ssa.Instruction
+	why := ""
+	for _, f := range c.funcsOfPkg("bn256") {
+		allInstrs(f, func(in ssa.Instruction) {
+			if bad != nil {
+				return
+			}
+			switch y := in.(type) {
+			case *ssa.Store:
+				if y.Addr == ssa.Value(g) && f != initFn {
+					bad, why = in, "is assigned outside the package initialiser"
+				}
+			case *ssa.Call:
+				if cal := y.Call.StaticCallee(); cal != nil && strings.HasPrefix(calleeName(&y.Call), "(*math/big.Int).") && !c52BigPure[cal.Name()] && len(y.Call.Args) > 0 {
+					if u, ok := y.Call.Args[0].(*ssa.UnOp); ok && u.X == ssa.Value(g) {
+						bad, why = in, "is the receiver of the mutating call "+cal.Name()
+					}
+				}
+			}
+		})
+	}
+	if bad != nil {
+		c.fail("C52.modulus", "bn256 field prime "+g.Name(), bad, "the modulus "+why)
+		return g
+	}
+	c.ok("C52.modulus", "bn256 field prime "+g.Name(), g, "package-level "+g.Name()+" is initialised to the field prime and never written afterwards")
+	return g
+}
+
+// ---------------------------------------------------------------------------
+// obligations aggregated over paths
+
+type c52Obl struct {
+	rule, construct string
+	at              poser
+	okd             string
+	failAt          poser
+	failMsg         string
+	undec           bool
+}
+
+type c52Obls struct {
+	c     *Ctx
+	order []string
+	m     map[string]*c52Obl
+}
+
+func (o *c52Obls) get(rule, construct string) *c52Obl {
+	k := rule + "\x00" + construct
+	if o.m == nil {
+		o.m = map[string]*c52Obl{}
+	}
+	if ob, ok := o.m[k]; ok {
+		return ob
+	}
+	ob := &c52Obl{rule: rule, construct: construct}
+	o.m[k] = ob
+	o.order = append(o.order, k)
+	return ob
+}
+
+func (o *c52Obls) pass(rule, construct string, at poser, detail string) {
+	ob := o.get(rule, construct)
+	if ob.okd == "" {
+		ob.at, ob.okd = at, detail
+	}
+}
+
+func (o *c52Obls) fail(rule, construct string, at poser, detail string) {
+	ob := o.get(rule, construct)
+	if ob.failMsg == "" || ob.undec {
+		ob.failAt, ob.failMsg, ob.undec = at, detail, false
+	}
+}
+
+func (o *c52Obls) undecided(rule, construct string, at poser, detail string) {
+	ob := o.get(rule, construct)
+	if ob.failMsg == "" {
+		ob.failAt, ob.failMsg, ob.undec = at, detail, true
+	}
+}
+
+func (o *c52Obls) flush() {
+	for _, k := range o.order {
+		ob := o.m[k]
+		switch {
+		case ob.failMsg != "" && ob.undec:
+			o.c.undecided(ob.rule, ob.construct, ob.failAt, ob.failMsg)
+		case ob.failMsg != "":
+			o.c.fail(ob.rule, ob.construct, ob.failAt, ob.failMsg)
+		default:
+			o.c.ok(ob.rule, ob.construct, ob.at, ob.okd)
 		}
 	}
 }
 
+// ---------------------------------------------------------------------------
+
+func runC52(c *Ctx) {
+	modG := c52Modulus(c)
+	pterm := ""
+	if modG != nil {
+		pterm = "init(G:" + modG.Name() + ")"
+	}
+	for _, spec := range []struct {
+		group  string
+		ncoord int
+	}{{"G1", 2}, {"G2", 4}} {
+		layout := c52Marshal(c, spec.group, spec.ncoord, pterm)
+		preds := c52Unmarshal(c, spec.group, spec.ncoord, pterm, layout)
+		for _, f := range preds {
+			c52PredPure(c, f)
+		}
+	}
+}
+
+// c52PredPure: the curve predicate, interpreted on an arbitrary point, leaves
+// every big.Int and every memory cell that existed before the call untouched
+// (it computes in objects it allocates itself). This is what allows Unmarshal's
+// interpretation to treat it as a function of the point's coordinates.
+func c52PredPure(c *Ctx, f *ssa.Function) {
+	if len(f.Params) == 0 || len(f.Blocks) == 0 {
+		c.undecided("C52.oncurve-pure", fnName(f), f, "the curve predicate has no body to interpret")
+		return
+	}
+	x := &c52X{}
+	x.start(f, []c52V{{k: 'p', obj: f.Params[0].Name()}})
+	if x.aborted != "" || x.cutoffs > 0 || len(x.ends) == 0 {
+		c.undecided("C52.oncurve-pure", fnName(f), f, fmt.Sprintf("symbolic interpretation of the curve predicate is incomplete (%s; %d paths cut off)", x.aborted, x.cutoffs))
+		return
+	}
+	for _, e := range x.ends {
+		if e.st.imprec != "" {
+			c.undecided("C52.oncurve-pure", fnName(f), e.ret, "a path is not fully interpreted: "+e.st.imprec)
+			return
+		}
+		var objs, cells []string
+		for obj, h := range e.st.hist {
+			if !c52Fresh(obj) && len(h) > 1 {
+				objs = append(objs, obj)
+			}
+		}
+		for k := range e.st.mem {
+			if obj := k[:strings.Index(k, "|")]; !c52Fresh(obj) {
+				cells = append(cells, strings.Replace(k, "|", "", 1))
+			}
+		}
+		sort.Strings(objs)
+		sort.Strings(cells)
+		if len(objs) > 0 {
+			c.fail("C52.oncurve-pure", fnName(f), e.ret, "the curve predicate modifies the big.Int "+objs[0]+", which it did not allocate itself; Unmarshal may accept a point other than the one it validated")
+			return
+		}
+		if len(cells) > 0 {
+			c.fail("C52.oncurve-pure", fnName(f), e.ret, "the curve predicate stores to "+cells[0]+", memory it did not allocate itself")
+			return
+		}
+	}
+	c.ok("C52.oncurve-pure", fnName(f), f, fmt.Sprintf("on all %d interpreted paths the curve predicate writes only to objects it allocated itself", len(x.ends)))
+}
+
+func c52Leaves(x *c52X, st *c52St, recv *ssa.Parameter) []c52Leaf {
+	var out []c52Leaf
+	x.bigLeaves(st, c52V{k: 'p', obj: recv.Name()}, recv.Type(), "", 0, &out)
+	return out
+}
+
+// c52Marshal checks Marshal of the group and returns the layout it implements:
+// layout[i] is the receiver-relative path of the coordinate written to window i.
+func c52Marshal(c *Ctx, group string, n int, pterm string) []string {
+	name := "(*" + group + ").Marshal"
+	fn := c.fn("bn256", name)
+	if fn == nil || len(fn.Params) < 1 {
+		return nil
+	}
+	recv := fn.Params[0]
+	x := &c52X{isPred: c52IsCurvePred}
+	x.start(fn, []c52V{{k: 'p', obj: recv.Name()}})
+	if x.aborted != "" || x.cutoffs > 0 || len(x.ends) == 0 {
+		c.undecided("C52.marshal-window", name, fn, fmt.Sprintf("symbolic interpretation of Marshal is incomplete (%s; %d paths cut off, %d returns)", x.aborted, x.cutoffs, len(x.ends)))
+		return nil
+	}
+	want := int64(32 * n)
+	ob := &c52Obls{c: c}
+	var layout []string
+	nWritten := 0
+	for _, e := range x.ends {
+		if len(e.results) != 1 {
+			ob.fail("C52.marshal-size", name+" return", e.ret, "Marshal does not return a single byte slice")
+			continue
+		}
+		r := e.results[0]
+		var buf *c52Buf
+		if r.k == 's' {
+			buf = e.st.bufs[r.obj]
+		}
+		if e.st.imprec != "" {
+			ob.undecided("C52.marshal-window", name, e.ret, "a path to this return is not fully interpreted: "+e.st.imprec)
+		}
+		if buf == nil || !r.off.conc() || r.off.n != 0 || !r.ln.conc() || r.ln.n != buf.ln {
+			ob.fail("C52.marshal-size", name+" return", e.ret, fmt.Sprintf("the returned slice (%s) is not a whole buffer freshly made in Marshal; Unmarshal requires exactly %d bytes", r, want))
+			continue
+		}
+		if buf.ln != want {
+			ob.fail("C52.marshal-size", name+" return", e.ret, fmt.Sprintf("returns a buffer of %d bytes, Unmarshal requires exactly %d", buf.ln, want))
+		} else {
+			ob.pass("C52.marshal-size", name+" return", e.ret, fmt.Sprintf("returns a fresh %d-byte buffer", buf.ln))
+		}
+		if buf.dirty != "" {
+			ob.fail("C52.marshal-window", name, e.ret, "the result buffer is also written by "+buf.dirty+", which is not a coordinate window")
+			continue
+		}
+		if len(buf.writes) == 0 {
+			continue // the all-zero encoding
+		}
+		nWritten++
+		leaves := c52Leaves(x, e.st, recv)
+		leafOf := func(content string) string {
+			for _, l := range leaves {
+				if e.st.content(l.obj) == content {
+					return l.path
+				}
+			}
+			return ""
+		}
+		type win struct {
+			w       c52Write
+			leaf    string
+			reduced bool
+		}
+		wins := map[int64]*win{}
+		for _, w := range buf.writes {
+			idx := int64(-1)
+			switch {
+			case w.aligned && w.off.conc() && w.ln.conc() && w.ln.n == 32 && w.off.n%32 == 0:
+				idx = w.off.n / 32
+			case !w.aligned && w.whole && !w.off.unk && w.off.coef == -1 && w.off.term == w.lenTerm && w.off.n > 0 && w.off.n%32 == 0 &&
+				!w.ln.unk && w.ln.coef == 1 && w.ln.n == 0 && w.ln.term == w.lenTerm:
+				idx = w.off.n/32 - 1
+			}
+			if idx < 0 || idx >= int64(n) {
+				ob.fail("C52.marshal-window", name, w.at, fmt.Sprintf("a write into the result (offset %s, %s bytes) is not one coordinate right-aligned in its own 32-byte window (right-alignment broken)", w.off, w.ln))
+				continue
+			}
+			if wins[idx] != nil {
+				ob.fail("C52.marshal-window", fmt.Sprintf("%s window ending %d", name, 32*(idx+1)), w.at, "the window is written twice")
+				continue
+			}
+			wn := &win{w: w}
+			if pterm != "" && strings.HasPrefix(w.src, "mod(") && strings.HasSuffix(w.src, ","+pterm+")") {
+				wn.reduced = true
+				wn.leaf = leafOf(w.src[len("mod(") : len(w.src)-len(","+pterm+")")])
+				if wn.leaf == "" {
+					// the coordinate was reduced in place
+					wn.leaf = leafOf(w.src)
+				}
+			} else {
+				wn.leaf = leafOf(w.src)
+			}
+			wins[idx] = wn
+		}
+		var lay []string
+		for i := int64(0); i < int64(n); i++ {
+			construct := fmt.Sprintf("%s window ending %d", name, 32*(i+1))
+			wn := wins[i]
+			switch {
+			case wn == nil:
+				ob.fail("C52.marshal-window", construct, e.ret, fmt.Sprintf("no coordinate is written to result[%d:%d] on a path that writes others", 32*i, 32*(i+1)))
+				lay = append(lay, "")
+				continue
+			case wn.leaf == "":
+				ob.fail("C52.marshal-window", construct, wn.w.at, "the window holds a value that is not a coordinate of the receiver (reduced mod p)")
+			case !wn.reduced:
+				ob.fail("C52.marshal-window", construct, wn.w.at, "the window holds receiver"+wn.leaf+" WITHOUT reduction mod p: Bytes() drops the sign of a negative coordinate and may exceed 32 bytes, so Marshal followed by Unmarshal does not return an equal element")
+			default:
+				ob.pass("C52.marshal-window", construct, wn.w.at, "holds receiver"+wn.leaf+" mod p, big-endian, right-aligned")
+			}
+			lay = append(lay, wn.leaf)
+		}
+		for i := range lay {
+			for j := 0; j < i; j++ {
+				if lay[i] != "" && lay[i] == lay[j] {
+					ob.fail("C52.marshal-window", fmt.Sprintf("%s window ending %d", name, 32*(i+1)), e.ret, "the same coordinate receiver"+lay[i]+" is written to two windows")
+				}
+			}
+		}
+		if layout == nil {
+			layout = lay
+		} else if strings.Join(layout, ",") != strings.Join(lay, ",") {
+			ob.fail("C52.marshal-window", name, e.ret, "different paths of Marshal lay the coordinates out differently")
+		}
+	}
+	if nWritten == 0 {
+		ob.fail("C52.marshal-window", name, fn, "no path of Marshal writes any coordinate into the result")
+	}
+	ob.flush()
+	return layout
+}
+
+func c52ZeroKnown(st *c52St, b string) bool {
+	for _, t := range []string{"sign(" + b + ")", "bitlen(" + b + ")", "wordlen(" + b + ")", "cmp(" + b + ",const(0))", "cmp(const(0)," + b + ")"} {
+		if v, ok := st.con(t).point(); ok && v == 0 {
+			if _, constrained := st.cons[t]; constrained {
+				return true
+			}
+		}
+	}
+	return false
+}
+
+func c52BelowKnown(st *c52St, b, pterm string) bool {
+	if pterm == "" {
+		return false
+	}
+	if c, ok := st.cons["cmp("+b+","+pterm+")"]; ok && c.hi <= -1 {
+		return true
+	}
+	if c, ok := st.cons["cmp("+pterm+","+b+")"]; ok && c.lo >= 1 {
+		return true
+	}
+	return false
+}
+
+// c52Unmarshal checks Unmarshal of the group against the layout of Marshal and
+// returns the curve predicates it relies on.
+func c52Unmarshal(c *Ctx, group string, n int, pterm string, layout []string) []*ssa.Function {
+	name := "(*" + group + ").Unmarshal"
+	fn := c.fn("bn256", name)
+	if fn == nil || len(fn.Params) < 2 {
+		return nil
+	}
+	recv, m := fn.Params[0], fn.Params[1]
+	lenTerm := "len(" + m.Name() + ")"
+	x := &c52X{isPred: c52IsCurvePred, watch: map[string]bool{m.Name(): true}}
+	x.start(fn, []c52V{{k: 'p', obj: recv.Name()}, {k: 's', obj: m.Name(), off: c52N(0), ln: c52L{coef: 1, term: lenTerm}}})
+	if x.aborted != "" || x.cutoffs > 0 || len(x.ends) == 0 {
+		c.undecided("C52.accept-return", name, fn, fmt.Sprintf("symbolic interpretation of Unmarshal is incomplete (%s; %d paths cut off, %d returns)", x.aborted, x.cutoffs, len(x.ends)))
+		return nil
+	}
+	want := int64(32 * n)
+	ob := &c52Obls{c: c}
+	window := func(i int) string { return fmt.Sprintf("%s[%d:%d]", m.Name(), 32*i, 32*(i+1)) }
+	nAccept, nInf, nCurve := 0, 0, 0
+	var firstAccept *ssa.Return
+	for _, e := range x.ends {
+		if len(e.results) != 2 {
+			ob.fail("C52.accept-return", name, e.ret, "Unmarshal does not return (element, ok)")
+			continue
+		}
+		st := e.st
+		switch x.truth(st, e.results[1]) {
+		case 0:
+			continue
+		case -1:
+			// accepted exactly when the returned condition holds
+			if !x.assume(st, e.results[1], true) {
+				continue
+			}
+		}
+		nAccept++
+		if firstAccept == nil {
+			firstAccept = e.ret
+		}
+		if st.imprec != "" {
+			ob.undecided("C52.accept-return", name, e.ret, "a path to this accepting return is not fully interpreted: "+st.imprec)
+		}
+		if r := e.results[0]; r.k == 'p' && r.obj == recv.Name() && r.sub == "" {
+			ob.pass("C52.accept-return", name, e.ret, "accepting returns hand back the receiver")
+		} else {
+			ob.fail("C52.accept-return", name, e.ret, "an accepting return does not return the receiver the encoding was decoded into ("+r.String()+")")
+		}
+		// length
+		if v, ok := st.con(lenTerm).point(); ok && v == want {
+			ob.pass("C52.length-guard", name, e.ret, fmt.Sprintf("accepting returns are only reached with len(%s) == %d", m.Name(), want))
+		} else {
+			cn := st.con(lenTerm)
+			ob.fail("C52.length-guard", name, e.ret, fmt.Sprintf("no exact length test len(%s) == %d guards the accepting return (an accepting path admits lengths %d..%d)", m.Name(), want, cn.lo, min(cn.hi, 1<<31)))
+		}
+		// coordinates: the receiver's big.Int leaves decoded from the input
+		leaves := c52Leaves(x, st, recv)
+		lastBytes := func(obj string) string {
+			h := st.hist[obj]
+			for i := len(h) - 1; i >= 0; i-- {
+				if strings.HasPrefix(h[i], "bytes("+m.Name()+",") {
+					return h[i]
+				}
+			}
+			return ""
+		}
+		var decoded []c52Leaf
+		for _, l := range leaves {
+			if lastBytes(l.obj) != "" {
+				decoded = append(decoded, l)
+			}
+		}
+		if len(decoded) == n {
+			ob.pass("C52.coords", name, e.ret, fmt.Sprintf("%d coordinates of the receiver are decoded from the input", n))
+		} else {
+			ob.fail("C52.coords", name, e.ret, fmt.Sprintf("expected %d coordinates of the receiver set from input bytes, found %d", n, len(decoded)))
+		}
+		// coordinate i of Unmarshal is the receiver leaf decoded from window i
+		lay := make([]string, n)
+		stray := ""
+		for _, l := range decoded {
+			hit := false
+			for i := 0; i < n; i++ {
+				if lastBytes(l.obj) == fmt.Sprintf("bytes(%s,%d,32)", m.Name(), 32*i) {
+					hit = true
+					if lay[i] == "" {
+						lay[i] = l.path
+					}
+				}
+			}
+			if !hit {
+				var o, ln int64
+				fmt.Sscanf(lastBytes(l.obj)[len("bytes("+m.Name()+","):], "%d,%d", &o, &ln)
+				stray += fmt.Sprintf("; receiver%s reads %s[%d:%d]", l.path, m.Name(), o, o+ln)
+			}
+		}
+		byPath := map[string]string{}
+		for _, l := range leaves {
+			byPath[l.path] = l.obj
+		}
+		B := make([]string, n)
+		zero := make([]bool, n)
+		allZero := true
+		for i := 0; i < n; i++ {
+			if lay[i] != "" {
+				B[i] = lastBytes(byPath[lay[i]])
+			}
+			zero[i] = B[i] != "" && c52ZeroKnown(st, B[i])
+			allZero = allZero && zero[i]
+		}
+		// the curve predicate held on a point with exactly the decoded coordinates
+		onCurve := false
+		for _, ev := range st.onc {
+			if c, constrained := st.cons[ev.term]; !constrained || c.lo != 1 || c.hi != 1 {
+				continue
+			}
+			// the point is the part of the receiver below a common prefix of the coordinate paths
+			parts := strings.Split(strings.TrimPrefix(lay[0], "."), ".")
+			for k := 0; k <= len(parts) && !onCurve; k++ {
+				pre := ""
+				if k > 0 {
+					pre = "." + strings.Join(parts[:k], ".")
+				}
+				all := true
+				for i := 0; i < n; i++ {
+					if B[i] == "" || !strings.HasPrefix(lay[i], pre) || ev.byRel[lay[i][len(pre):]] != B[i] {
+						all = false
+					}
+				}
+				onCurve = all
+			}
+		}
+		if allZero {
+			nInf++
+		} else if onCurve {
+			nCurve++
+		}
+		layoutOK := len(layout) == n
+		for i := range layout {
+			layoutOK = layoutOK && layout[i] != ""
+			for j := 0; j < i; j++ {
+				layoutOK = layoutOK && layout[i] != layout[j]
+			}
+		}
+		for i := 0; i < n; i++ {
+			construct := fmt.Sprintf("%s coord#%d %s", name, i, window(i))
+			if lay[i] == "" {
+				ob.fail("C52.window", construct, e.ret, fmt.Sprintf("no coordinate of the receiver is decoded from %s%s", window(i), stray))
+				continue
+			}
+			ob.pass("C52.window", construct, e.ret, fmt.Sprintf("%s is decoded into receiver%s", window(i), lay[i]))
+		}
+		for i := 0; i < n; i++ {
+			construct := fmt.Sprintf("%s coord#%d %s", name, i, window(i))
+			if lay[i] == "" {
+				continue
+			}
+			if zero[i] || c52BelowKnown(st, B[i], pterm) {
+				ob.pass("C52.canonical", construct, e.ret, "every accepting path has Cmp(receiver"+lay[i]+", p) < 0 (or the coordinate is zero)")
+			} else if _, compared := st.cons["cmp("+B[i]+","+pterm+")"]; !compared && pterm != "" {
+				ob.fail("C52.canonical", construct, e.ret, "an accepting return is reachable on which receiver"+lay[i]+" is never compared with the modulus p after SetBytes; x+k·p encodings are accepted")
+			} else {
+				ob.fail("C52.canonical", construct, e.ret, "an accepting return is reachable without Cmp(receiver"+lay[i]+", p) < 0; x+k·p encodings are accepted")
+			}
+			if zero[i] || onCurve {
+				ob.pass("C52.oncurve", construct, e.ret, "every accepting path has receiver"+lay[i]+" zero or IsOnCurve()==true on the decoded point")
+			} else {
+				ob.fail("C52.oncurve", construct, e.ret, "an accepting return is reachable with receiver"+lay[i]+" possibly non-zero and without IsOnCurve() == true on the decoded coordinates")
+			}
+		}
+		for i := 0; i < n; i++ {
+			construct := fmt.Sprintf("%s coord#%d %s", name, i, window(i))
+			if lay[i] == "" {
+				continue
+			}
+			if !allZero && st.content(byPath[lay[i]]) != B[i] {
+				ob.fail("C52.stored", construct, e.ret, fmt.Sprintf("at an accepting return for a point other than infinity receiver%s no longer holds the value decoded from %s (it holds %s)", lay[i], window(i), st.content(byPath[lay[i]])))
+			} else {
+				ob.pass("C52.stored", construct, e.ret, "the accepted element holds the decoded value (or is the point at infinity)")
+			}
+			if layoutOK {
+				if layout[i] == lay[i] {
+					ob.pass("C52.layout", construct, e.ret, "Marshal writes receiver"+lay[i]+" to the window Unmarshal reads it from")
+				} else {
+					ob.fail("C52.layout", construct, e.ret, fmt.Sprintf("Unmarshal decodes %s into receiver%s but Marshal writes receiver%s to that window: Marshal followed by Unmarshal does not return an equal element", window(i), lay[i], layout[i]))
+				}
+			}
+		}
+	}
+	if nAccept == 0 {
+		ob.fail("C52.accept-return", name, fn, "no accepting return found")
+	}
+	if x.oobAt != nil {
+		ob.fail("C52.length-guard", name, x.oobAt, "the input is sliced or indexed where the length test has not established the bound: "+x.oobWhy)
+	}
+	var at poser = fn
+	if firstAccept != nil {
+		at = firstAccept
+	}
+	if nAccept > 0 {
+		if nCurve > 0 {
+			ob.pass("C52.oncurve-call", name, at, "an accepting path carries IsOnCurve()==true on the decoded point")
+		} else {
+			ob.fail("C52.oncurve-call", name, at, "no accepting path for a point other than infinity carries IsOnCurve()==true on the decoded coordinates")
+		}
+		if nInf > 0 {
+			ob.pass("C52.infinity", name, at, "the all-zero encoding (Marshal of infinity) has an accepting path that does not ask IsOnCurve")
+		} else {
+			ob.fail("C52.infinity", name, at, "no accepting path with all coordinates known to be zero: the all-zero encoding that Marshal produces for infinity is not accepted")
+		}
+	}
+	ob.flush()
+	return x.predSeen
+}
+
 // allocLen returns the constant length of a freshly allocated slice value, or -1.
+// (Shared with c25.go.)
 func allocLen(v ssa.Value) int64 {
 	switch x := v.(type) {
 	case *ssa.MakeSlice:
